@@ -46,6 +46,7 @@ def run(ctx):
     from . import shared
     shared.check_token_ctors_verbatim(ctx, 'R8')
     shared.check_cells_unmodified(ctx, 'R8')
+    r9_one_node_per_global_comment(ctx)
 
 
 # --------------------------------------------------------------------------- R1
@@ -693,3 +694,51 @@ def r6_bookkeeping(ctx):
         ctx.check(stores.get(f'self.{attr}') == attr, 'R6', init.loc, init.qualname, f'node-stores:{attr}',
                   f'Node.__init__ stores {attr}', f'self.{attr} = `{stores.get(f"self.{attr}")}`')
     ctx.check(stores.get('self.children') == '[]', 'R6', init.loc, init.qualname, 'node-children-fresh', 'a node starts without children')
+
+
+# --------------------------------------------------------------------------- R9: a global comment is ONE node
+def r9_one_node_per_global_comment(ctx):
+    """A global-comment line has one cell and becomes one node.  A loop in _compute_metacomment_token that adds a node per open
+    spine is harmless only while the test that guards it can never select it (today: `self._header_row_number is None` with an
+    attribute that nothing ever sets)."""
+    imp = ctx.prog.cls(f'{IMP.rpartition(".")[0]}.Importer') if False else ctx.prog.func(f'{IMP}._compute_metacomment_token').cls
+    f = ctx.prog.func(f'{IMP}._compute_metacomment_token')
+    parent = {}
+    for n in ast.walk(f.node):
+        for c in ast.iter_child_nodes(n):
+            parent[c] = n
+    loops = [n for n in walk_local(f.node) if isinstance(n, (ast.For, ast.While))
+             and any(isinstance(c, ast.Call) and isinstance(c.func, ast.Attribute) and c.func.attr == 'add_node' for c in ast.walk(n))]
+    n_checked = 0
+    for lp in loops:
+        # the chain of `if` tests above the loop, with the branch taken
+        guards, cur = [], lp
+        while cur in parent:
+            up = parent[cur]
+            if isinstance(up, ast.If):
+                guards.append((up.test, cur in up.body))
+            cur = up
+        dead = False
+        why = 'the loop is not guarded by a test on importer state'
+        for test, taken in guards:
+            m = None
+            if isinstance(test, ast.Compare) and len(test.ops) == 1 and isinstance(test.ops[0], (ast.Is, ast.IsNot)) \
+                    and isinstance(test.comparators[0], ast.Constant) and test.comparators[0].value is None \
+                    and isinstance(test.left, ast.Attribute) and F.is_name(test.left.value, 'self'):
+                is_none_branch = isinstance(test.ops[0], ast.Is) == taken
+                attr = test.left.attr
+                stores = [a for m_ in imp.methods.values() for a in walk_local(m_.node) if isinstance(a, (ast.Assign, ast.AnnAssign, ast.AugAssign))
+                          and any(src(t) == f'self.{attr}' for t in (a.targets if isinstance(a, ast.Assign) else [a.target]))]
+                non_none = [a for a in stores if not (isinstance(getattr(a, 'value', None), ast.Constant) and a.value.value is None)]
+                if not is_none_branch and not non_none:
+                    dead = True       # needs `self.attr is not None`, and nothing ever gives it a value
+                elif not is_none_branch:
+                    why = (f'`self.{attr}` is set by `{src(non_none[0])[:60]}` ({non_none[0].lineno}), so the branch that adds one node per open '
+                           f'spine is taken for every global comment after that')
+        n_checked += 1
+        ctx.check(dead, 'R9', f'{f.module.relpath}:{lp.lineno}', f.qualname, 'global-comment-one-node-per-spine',
+                  'the per-spine loop of _compute_metacomment_token can never run (its guard needs state nothing sets): a global comment is one node',
+                  f'a global comment (one cell) becomes one node PER OPEN SPINE: {why}; the rows below descend from those nodes instead of '
+                  f'from the cells above them')
+    if not loops:
+        ctx.holds('R9', f.loc, f.qualname, 'a global comment adds its node(s) without a per-spine loop')
